@@ -19,6 +19,10 @@ def search(ctx):
 
 
 def run(ctx):
+    # replay files of an earlier run must not survive into this one
+    import glob
+    for f in glob.glob(os.path.join(common.VERIF, "evidence", "replays", "C01-*.json")):
+        os.remove(f)
     ctx.extract(["optables", "dce"])
     theorems, examples, axioms = [], 0, {}
     if os.path.exists(_ops_file()):
@@ -61,5 +65,14 @@ def replay(ctx, data):
         return 1
     if not ctx.build_harness("c01"):
         return 1
-    rep = ctx.harness("c01", ["replay", json.dumps(data["input"])], timeout=600)
-    return 1 if rep is None or rep.get("impl_violations") else 0
+    exe = os.path.join(common.TARGET, "debug", "c01")
+    rc, out = common.run([exe, "replay", json.dumps(data["input"])], cwd=common.VERIF, timeout=900)
+    rep = None
+    for line in out.splitlines():
+        if line.startswith("HARNESS-REPORT "):
+            rep = json.loads(line[len("HARNESS-REPORT "):])
+        else:
+            print(line)
+    failed = rep is None or bool(rep.get("impl_violations")) or bool(rep.get("model_mismatches"))
+    print("REPLAY: " + ("the failure reproduces" if failed else "no failure on this tree"))
+    return 1 if failed else 0
